@@ -240,6 +240,11 @@ def e1Off (i : Nat) : P1 :=
 
 def e1Gen (args : List String) : String :=
   match args with
+  | ["lift", x] => match parseNat? x with           -- the point with the first abscissa >= x that is on the curve
+    | some x => match e1PointFromX 200 (x % p) with
+      | some P => okHex (writeE1 P)
+      | none => "err"
+    | none => "bad-op"
   | ["torsion", i] => match i.toNat? with
     | some i => okHex (writeE1 (e1Torsion i))
     | none => "bad-op"
